@@ -10,7 +10,10 @@ Labels: `crash n t`, `recvEmp p e f | emits`, `recvUp n f | emits`, `recvClient 
 `flush n`, `flushDrop n`, `wsend w msg`, `wrecv w`, `ccall c msg`, `cwake c`.
 Messages: S shutdown, R.m.v, E sysError, o.k other, B broken, q.k request, s.k submit (k-th task of the client),
 d disconnect, X error, r.k reply.  Emits: `u:msg`, `e<i>:msg`, `c<i>:msg`.
-Stateless: `recvall <eof> | msgs`, `predrain <eof> | msgs` (the client's receive loops). -/
+The `f` of `recvEmp` / `recvUp` is `0`, `1` or the name of the exception class `recv` raised on a lost connection
+(`eof reset pipe aborted closed trunc`; classified by `ConnExc.hard`).
+Stateless: `recvall <eof> | msgs`, `predrain <eof> | msgs` (the client's receive loops),
+`react <site> <exc>` (the reaction table `react`). -/
 namespace BqVerif.Drv.Crash
 open BqVerif.Crash BqVerif.Drv
 
@@ -51,12 +54,36 @@ def parseEmit (tok : String) : Option (Dest × Msg) :=
 def parseBool (tok : String) : Option Bool :=
   if tok = "1" then some true else if tok = "0" then some false else none
 
+def parseExc (tok : String) : Option ConnExc :=
+  match tok with
+  | "eof" => some .eof | "reset" => some .reset | "pipe" => some .pipe | "aborted" => some .aborted
+  | "closed" => some .closedHandle | "trunc" => some .truncated | _ => none
+
+def parseSite (tok : String) : Option Site :=
+  match tok with
+  | "runRecv" => some .runRecv | "workerRecv" => some .workerRecv | "clientRecv" => some .clientRecv
+  | "clientSend" => some .clientSend | "outgoingSend" => some .outgoingSend
+  | "shutdownSend" => some .shutdownSend | "managerUpSend" => some .managerUpSend
+  | "unknownTaskSend" => some .unknownTaskSend | "workerSend" => some .workerSend
+  | "sysErrClientSend" => some .sysErrClientSend | _ => none
+
+def showReaction : Reaction → String
+  | .disconnect => "disconnect" | .systemError => "systemError" | .selfKill => "selfKill"
+  | .raises => "raises" | .dropped => "dropped" | .shutdownThenEscapes => "shutdownThenEscapes"
+
+/-- the `fails` flag of a delivery: `0` / `1` (a handler of ordinary traffic raised), or the NAME of the
+exception class that `recv` raised on a lost connection - classified by the model (`ConnExc.hard`) -/
+def parseFails (tok : String) : Option Bool :=
+  match parseBool tok with
+  | some b => some b
+  | none => (parseExc tok).map ConnExc.hard
+
 def parseLabel (gs : List (List String)) : Option Label :=
   let emits := (gs.drop 1).headD []
   match gs.headD [] with
   | ["crash", n, tr] => do some (.crash (← n.toNat?) (← parseBool tr))
-  | ["recvEmp", p, e, f] => do some (.recvEmp (← p.toNat?) (← e.toNat?) (← emits.mapM parseEmit) (← parseBool f))
-  | ["recvUp", n, f] => do some (.recvUp (← n.toNat?) (← emits.mapM parseEmit) (← parseBool f))
+  | ["recvEmp", p, e, f] => do some (.recvEmp (← p.toNat?) (← e.toNat?) (← emits.mapM parseEmit) (← parseFails f))
+  | ["recvUp", n, f] => do some (.recvUp (← n.toNat?) (← emits.mapM parseEmit) (← parseFails f))
   | ["recvClient", c, f] => do some (.recvClient (← c.toNat?) (← emits.mapM parseEmit) (← parseBool f))
   | ["flush", n] => n.toNat?.map .flush
   | ["flushDrop", n] => n.toNat?.map .flushDrop
@@ -131,6 +158,11 @@ def stepLine (st : St) (line : String) : St × String :=
     | some e, some ms =>
       (st, match recvAll ms none e with
         | .returned m => s!"returned {showMsg m}" | .raised => "raised" | .blocked => "blocked")
+    | _, _ => (st, "parse-error")
+  | ["react", site, exc] =>
+    -- stateless: which reaction the model prescribes for exception class `exc` at `site`
+    match parseSite site, parseExc exc with
+    | some st', some x => (st, showReaction (react st' x))
     | _, _ => (st, "parse-error")
   | ["predrain", eof] =>
     match parseBool eof, ((gs.drop 1).headD []).mapM parseMsg with
